@@ -63,6 +63,24 @@ func runC10(r *Run) {
 		"closure holds inside the bounded universe (element bounds, <= 4 live containers, 2 size classes crossing the inline limit)",
 	}
 	r.ExploreSpecs(nestedSpecs(r, false, []string{"sem", "struct", "inline", "reopen", "events"}))
+	// all histories up to a depth bound WITHOUT state deduplication (hidden state the key cannot see)
+	nd := func(name string, rootmap, depth int, classes []string, extra map[string]int) Spec {
+		e := map[string]int{"rootmap": rootmap, "lr": 2, "lc": 3, "maxc": 2, "depth": 2, "nosettype": 1, "childcls": 1, "nocdrop": 1, "nodedup": 1}
+		for k, v := range extra {
+			e[k] = v
+		}
+		return Spec{Name: name, Kind: "nested", T: 256, Keys: 2, Classes: classes, Oracles: []string{"sem", "struct", "inline", "reopen"}, Extra: e, Depth: depth}
+	}
+	d := 6
+	if r.Thorough() {
+		d = 8
+	}
+	r.ExploreSpecs([]Spec{
+		nd("nodedup-arr", 0, d, []string{"A"}, nil),
+		nd("nodedup-map", 1, d, []string{"M"}, nil),
+		nd("nodedup-two-handles", 0, d, []string{"A"}, map[string]int{"twoh": 1, "lr": 1}),
+		nd("nodedup-two-handles-map", 1, d, []string{"M"}, map[string]int{"twoh": 1, "lr": 1}),
+	})
 	// children spread over multi-level parents: handle obtained, parent restructured (splits, merges,
 	// the child moving to another slab), child mutated across the inline limit through the handle
 	var ks []Spec
